@@ -14,7 +14,7 @@ int cmd_hist(const case_t *c);
 int cmd_read(const case_t *c);
 
 static const struct { const char *name; cmd_fn fn; } cmds[] = {
-    { "gssv", cmd_gssv }, { "gstrf", cmd_gstrf }, { "gssvx", cmd_gssvx }, { "kern", cmd_kern }, { "equil", cmd_equil }, { "order", cmd_order }, { "args", cmd_args }, { "hist", cmd_hist }, { "read", cmd_read },
+    { "gssv", cmd_gssv }, { "gstrf", cmd_gstrf }, { "gssvx", cmd_gssvx }, { "kern", cmd_kern }, { "equil", cmd_equil }, { "order", cmd_order }, { "args", cmd_args }, { "hist", cmd_hist }, { "read", cmd_read }, { "sched", cmd_sched },
     { NULL, NULL }
 };
 
@@ -37,6 +37,8 @@ int main(int argc, char **argv)
         for (int i = 0; cmds[i].name; ++i) if (!strcmp(cmds[i].name, cmd)) {
             found = 1;
             /* progress marker so that the driver can tell which case a crash belongs to */
+            hx_cur_case_id = cint(&c, "id", -1);
+            if (cint(&c, "watch", 0)) mon_watch_start();
             fprintf(stderr, "@case %ld\n", cint(&c, "id", -1)); fflush(stderr);
             int r = cmds[i].fn(&c);
             if (r > rc) rc = r;
